@@ -161,3 +161,14 @@ Theorem C05_leaf_align_non_pow2_differs :
   Leaf.L_align_u32_align_to_ok 5 3 = false /\ Leaf.L_align_u32_align_to 5 3 = 5 /\ Machine.align_to W32 3 5 = 6.
 Proof. exact LeafAlign.align_to_non_pow2_differs. Qed.
 Print Assumptions C05_leaf_align_non_pow2_differs.
+
+(* the source places the binders of the generated leaf definitions stand for (third audit, F2) *)
+From Coq Require Import List String.
+Import ListNotations.
+Theorem C05_leaf_reads_align :
+  Leaf.L_align_u32_align_to_args = ["self : u32"%string; "align : u32"%string] /\
+  Leaf.L_align_u32_aligned_to_args = ["self : u32"%string; "align : u32"%string] /\
+  Leaf.L_align_usize_align_to_args = ["self : usize"%string; "align : usize"%string] /\
+  Leaf.L_align_usize_aligned_to_args = ["self : usize"%string; "align : usize"%string].
+Proof. exact LeafAlign.leaf_reads_align. Qed.
+Print Assumptions C05_leaf_reads_align.
